@@ -289,6 +289,39 @@ def run(rep, tier, seed, model_ok=True, effort=1):
         if code != 0 or got != want:
             rep.violation("setup.cfg pattern %s: the quote characters are not matched literally" % pat, input=dict(pattern=pat, file_before=content, file_after=got, expected=want, exit=code, logs=logs[-3:]),
                           **{"class": "update-literal"})
+    # literal text in a pattern that uses one part twice (the second use gets its own group): the literal text stays mandatory -- lines that
+    # lack it are left alone, whatever numbers they contain
+    for vp, cur, raw, hit, new_hit, args_ in (
+            ("YYYY.0M.0D", "2024.03.05", "released 0D.0M.YYYY as {version} (0D.0M.)", "released 05.03.2024 as 2024.03.05 (05.03.)", "released 06.04.2024 as 2024.04.06 (06.04.)", ["--date", "2024-04-06"]),
+            ("vYYYY0M.BUILD[-TAG]", "v202403.1001-beta", "{version} (TAG) is TAG", "v202403.1001-beta (beta) is beta", "v202404.1002-beta (beta) is beta", ["--date", "2024-04-06"]),
+            ("MAJOR.MINOR.PATCH", "1.2.3", "apiMAJOR/vMAJOR.MINOR.PATCH", "api1/v1.2.3", "api1/v1.2.4", ["--patch"])):
+        decoys = ["see ticket 25 for details", "build took 12 minutes", "beta", "03", "2024", "1/v1"]
+        content = "".join(d + "\n" for d in decoys[:3]) + hit + "\n" + "".join(d + "\n" for d in decoys[3:])
+        prj = project.TempProject(vp, cur, files={"f.txt": [raw]}, contents={"f.txt": content})
+        with prj:
+            err = prj.cfg_error(impl)
+            code, out, logs, exc = prj.run(impl, ["update", "--no-fetch"] + args_) if not err else (1, "", [str(err)], None)
+            got = prj.snapshot().get("f.txt", b"").decode("utf-8", "replace")
+        want = content.replace(hit, new_hit)
+        rep.case(("repeated-part-literal", raw), nontrivial=True)
+        rep.count("update-literal-runs")
+        if code != 0 or got != want:
+            rep.violation("pattern with a repeated part: %s" % ("exit %s" % code if code != 0 else "lines without the pattern's literal text were rewritten (or the line with it was not)"),
+                          input=dict(version_pattern=vp, pattern=raw, file_before=content, file_after=got, expected=want, exit=code, logs=logs[-3:]), **{"class": "update-literal"})
+    # an EMPTY search pattern is the empty literal: it finds nothing to rewrite (the update stops, nothing is written) -- it is not a wildcard
+    # for "any version"
+    for vp, cur in (("MAJOR.MINOR.PATCH", "1.2.3"), ("vYYYY0M.BUILD[-TAG]", "v202403.1001-beta")):
+        content = "mentions %s twice: %s\n" % (cur, cur)
+        prj = project.TempProject(vp, cur, files={"f.txt": [""]}, contents={"f.txt": content})
+        with prj:
+            before = prj.snapshot()
+            err = prj.cfg_error(impl)
+            code, out, logs, exc = prj.run(impl, ["update", "--no-fetch", "--patch"] if "PATCH" in vp else ["update", "--no-fetch"]) if not err else (1, "", [str(err)], None)
+            after = prj.snapshot()
+        rep.case(("empty-pattern", vp), nontrivial=True)
+        if code == 0 or after != before:
+            rep.violation("an empty search pattern acts as a pattern for the version (exit %s, files changed: %s)" % (code, after != before),
+                          input=dict(version_pattern=vp, pattern="", file_before=content, file_after=after.get("f.txt", b"").decode("utf-8", "replace"), exit=code, logs=logs[-3:]), **{"class": "update-literal"})
     # a sample through the CLI
     import tempfile, os
     for lit in ["a|b", "x.y", "(1)+2", "c{2}", "q?", "a*b", "p-q", "\\[t\\]"]:
